@@ -2,6 +2,7 @@ import Driver.Util
 import Driver.Suites.Blocks
 import Driver.Suites.Loop
 import Driver.Suites.Race
+import Driver.Suites.E2E
 import Driver.Suites.Request
 import Driver.Suites.Readpath
 import Driver.Suites.WQ
@@ -46,6 +47,7 @@ def registry : List Suite := [
   Suites.Loop.mkSuite "crashpoints",
   Suites.Loop.mkSuite "serve",
   Suites.Race.suite,
+  Suites.E2E.suite,
   Suites.Request.suite,
   Suites.Readpath.suite,
   Suites.WQ.suite,
